@@ -30,7 +30,7 @@ CLAIMS["C03"] = ("other", "interprocedural taint (unprotected guards) + must-pas
     "touch of the retired object or its lock (this is what makes collect/FromIterator safe); (M2) at each of the 25 retire sites an unlink "
     "write on the object's own container precedes the retire on every value-flow path; (M3) immediate frees only on private/exclusively "
     "owned objects; (M4) copy-loop/retire-loop agreement; (M6) the forwarding marker is handed out only after next_table is set. Each is a necessary condition: breaking one yields a concrete use-after-free. "
-    "Not decided: that references stay *unchanged*, the collector's own correctness, value-level aliasing beyond copies.",
+    "A tree bin retired whole does not also have its nodes' values retired one by one (M9). Not decided: that references stay *unchanged*, the collector's own correctness, value-level aliasing beyond copies.",
     "DESIGN.md §4 C03", TRUST)
 
 CLAIMS["C07"] = ("other", "null-check contradiction rule (value-chain path search) + private-target rule over MIR",
@@ -51,7 +51,7 @@ CLAIMS["C14"] = ("other", "affine abstract interpretation over MIR + who-may-cal
     "threshold) and try_presize (reserve, or an overfull bin in a table shorter than 64); initiation is guarded by len < 2^30; the table "
     "pointer is only ever replaced by a fresh or doubled table; the constants are as stated; capacity 0 allocates nothing; reserve(additional) presizes for len() + additional; "
     "treeify_bin (which doubles a small table) is called only by an inserting operation; add_count leaves its resize loop only with count < size_ctl or for a reason "
-    "independent of the count and of the resize hint (so no insert returns with the count at or above the threshold for a removal to act on). Not decided: "
+    "independent of the count and of the resize hint (so no insert returns with the count at or above the threshold for a removal to act on). The bin length put reports is the number of nodes walked (K11). Not decided: "
     "'holds c well-distributed entries' (hash distribution) and power-of-two lengths (Q3, under C05).",
     "DESIGN.md §4 C14", TRUST + " x >> k is modelled as x/2^k (exact for the power-of-two lengths it is applied to).")
 
@@ -68,7 +68,7 @@ CLAIMS["C01"] = ("other", "MIR path rules: lock-region dataflow, edge dominance,
     "carried into a section); bin contents written only under the bin lock, on private nodes, by the empty-bin CAS or in teardown (tree "
     "helpers lifted to call sites); both new bins published before the forwarding marker; writers that meet a forwarding marker retry in a "
     "current table; set and pinned-reference facades are single delegations with guards paired to their collections; readers descend a tree bin only under the read lock and the write lock is taken only from a lock word without readers; a node's value is touched / a node reported found only after its key compared equal; a bin is read at the index computed for that very table. Each clause is a "
-    "necessary condition of the property: a tree violating it admits a concrete lost/duplicated/misattributed update.",
+    "necessary condition of the property: a tree violating it admits a concrete lost/duplicated/misattributed update. A new tree-bin entry is published in the bin's list before it is linked into the tree (L13).",
     "DESIGN.md §4 C01", TRUST + " Lock regions are intraprocedural (guard locals); a lock handed across calls would be INCONCLUSIVE.")
 CLAIMS["C08"] = ("other", "MIR region rules (callback, read and write inside one validated lock region) + signature predicate",
     "The lock-based atomicity argument of compute_if_present, on both arms and every path: callback only after head re-validation inside "
@@ -86,7 +86,7 @@ CLAIMS["C18"] = ("other", "MIR unwind-edge analysis (cleanup paths, drop flags b
     "every cleanup path; no user code (directly or via callees) runs inside the manually released tree write-lock region; retain "
     "predicates run under no lock; no shared write or retire precedes the callback inside its critical section, so a panic leaves the "
     "entry as found; no callback runs between an unlink and its count adjustment; no lock acquisition propagates poisoning (a std lock whose "
-    "LockResult is unwrapped would make every later operation panic after one panicking callback); thread-local state changed around a callback is restored on the unwind path too. Not decided: observable state of later operations on concrete histories.",
+    "LockResult is unwrapped would make every later operation panic after one panicking callback); thread-local state changed around a callback is restored on the unwind path too. Unwinding out of a caller-supplied closure retires, frees and writes nothing (U8). Not decided: observable state of later operations on concrete histories.",
     "DESIGN.md §4 C18", TRUST)
 
 CLAIMS["C16"] = ("proof", "signature (lifetime) rule over the type-checked API + compile-fail witnesses with compiling twins judged by rustc",
@@ -118,7 +118,7 @@ CLAIMS["C10"] = ("other", "MIR path rules (edge dominance, must-pass-through) + 
     "next_table, swap table, retire old, store 3/4 threshold) is gated by it, ordered and complete; the next table is exactly twice as long; "
     "initiation is guarded by len < 2^30; the size_ctl bit layout holds for the evaluated constants; every won initiator/helper ticket leads "
     "to transfer and transfer gives the ticket back on every exit; every joining site refuses to join on the same five atoms (sign, same generation stamp, full, finishing, no strides left); stride claiming makes progress (fresh positive index, strictly lower new value, index steps by one); the elected finisher sweeps the whole old table (i := len, decrement loop re-entered) before publishing; a bin is migrated only under its lock after re-validating the head; an initiator's table belongs to the size_ctl generation of its ticket. Not "
-    "decided: 'every old bin migrated exactly once' and non-overlap of generations over all schedules (needs interleaving semantics).",
+    "decided: 'every old bin migrated exactly once' and non-overlap of generations over all schedules (needs interleaving semantics). An old bin is marked as forwarded only after both halves are in the new table (Z14 = L3).",
     "DESIGN.md §4 C10", TRUST)
 CLAIMS["C11"] = ("other", "lock-order graph over the resolved call graph + acquire/release pairing and park-protocol path rules",
     "Clauses; fair-schedule liveness itself is NOT decided. Decided: at most one bin lock is ever held (no acquisition reachable through "
@@ -126,7 +126,7 @@ CLAIMS["C11"] = ("other", "lock-order graph over the resolved call graph + acqui
     "-- so the lock-order graph bin -> root is acyclic and no cyclic wait exists under any schedule; the park protocol (flag-gated park, "
     "WAITER bit set by a won CAS, handle published before parking, state re-read after wake-up, last reader unparks on READER|WAITER); the "
     "initialisation ticket is released on every path and losers yield; writers meeting a forwarding marker move on; the five accesses of "
-    "the park handshake (a store-buffering pattern) are SeqCst; every loop reachable from a read entry point has a progress witness.",
+    "the park handshake (a store-buffering pattern) are SeqCst; every loop reachable from a read entry point has a progress witness; waiting primitives only in init_table, contended_lock and the CPU-count Once; help_transfer returns the successor of the table it was given whenever there is one.",
     "DESIGN.md §4 C11", TRUST)
 
 CLAIMS["C05"] = ("other", "ESP path-sensitive typestate over MIR + provenance (power-of-two) analysis",
@@ -143,7 +143,7 @@ CLAIMS["C04"] = ("other", "ownership typestate over MIR: must-consume rules + ES
     "value is published exactly once or handed back exactly once, consistent with the returned PutResult variant, and is still owned on "
     "every retry; a removed/replaced value is retired exactly once (callee iff drop_value and no untreeify, else caller); teardown frees "
     "nodes, values, tree bins, the table and the forwarding node; a private list of fresh tree nodes is handed to exactly one of TreeBin::new / "
-    "drop_tree_nodes on every path. Not decided: drop counts over all concurrent histories, 'dropped after "
+    "drop_tree_nodes on every path. A tree bin retired whole keeps its values to itself (O10); every iteration of a retire walk retires the node under its cursor (O8); a removal acts only after the head was re-validated under the lock (O9 = L1). Not decided: drop counts over all concurrent histories, 'dropped after "
     "the last guard' (that is seize's contract).",
     "DESIGN.md §4 C04", TRUST)
 
